@@ -312,11 +312,12 @@ def coq_make(timeout=3000):
     """Full .vo build (never -vos) of /verif/coq."""
     mk = COQ / 'Makefile'
     cp = COQ / '_CoqProject'
+    subprocess.run([str(VERIF / 'bin' / 'gencoqproject')], check=True, capture_output=True)
     if (not mk.exists()) or mk.stat().st_mtime < cp.stat().st_mtime:
         subprocess.run(['coq_makefile', '-f', '_CoqProject', '-o', 'Makefile'], cwd=COQ,
                        check=True, capture_output=True)
     try:
-        p = subprocess.run(['timeout', str(timeout), 'make', f'-j{NCPU}'], cwd=COQ,
+        p = subprocess.run(['flock', str(COQ / '.build.lock'), 'timeout', str(timeout), 'make', '-k', f'-j{NCPU}'], cwd=COQ,
                            capture_output=True, text=True)
     except Exception as e:  # pragma: no cover
         return False, str(e)
